@@ -176,6 +176,17 @@ CHECKS = {
    design_ref='DESIGN.md 6 (C15)',
    note='Project layouts are the 16 relation subsets of one three-app universe; hand-written DeleteApplication evolutions are exercised only through the purge task.',
    technique='TLA+ model of app/table ownership and purge + TLC; operation sequences replayed on a real project'),
+ 'C16': dict(
+   engine='route', category='model_checking',
+   text=('Route.tla: one app, three models, every assignment of the models to two databases, either order of evolving them, every '
+         'valid evolution of bounded length over AddField / ChangeField / RenameModel (new table) / DeleteModel incl. mutations on '
+         'the renamed model; TLC checks OnlyRoutedModels, OtherDatabaseUntouched and Converged. Scenarios are replayed on a real '
+         'two-database project with a router through `evolve --database X --execute` and Evolver(database_name=X): the evolved '
+         'database must hold exactly the routed models at their target state and list exactly them in its stored signature, the other '
+         'database (tables, rows, bookkeeping tables) must be unchanged, and no run may fail.'),
+   design_ref='DESIGN.md 6 (C16)',
+   note='Routing is by model name through allow_migrate / db_for_write; relations across databases are not generated.',
+   technique='TLA+ model of per-database routing of mutations + TLC; scenarios replayed on a two-database project'),
 }
 
 NOT_YET = {
@@ -227,6 +238,8 @@ def main():
              'kind_free_text': 'pending upgrades run as evolve --sql / --execute / --hint in fresh interpreters under several hash seeds'},
             {'name': 'purge', 'path': 'harness/engines/purge.py', 'serves_properties': ['C15'],
              'kind_free_text': 'uninstall / DeleteModel / purge sequences from Purge.tla replayed on a three-app project'},
+            {'name': 'route', 'path': 'harness/engines/route.py', 'serves_properties': ['C16'],
+             'kind_free_text': 'router configurations and evolutions from Route.tla replayed on a two-database project'},
             {'name': 'refs', 'path': 'harness/engines/refs.py', 'serves_properties': ['C11'],
              'kind_free_text': 'TLC-enumerated reference graphs and rename/delete sequences replayed into real simulate() methods'},
             {'name': 'evograph', 'path': 'harness/engines/evograph.py', 'serves_properties': ['C09'],
